@@ -533,8 +533,34 @@ func genC09Case(r *rand.Rand, tier string) string {
 	return strings.Join(cmds, " ; ")
 }
 
+// c09Exhaustive: every history of at most 4 operations over one predicate with three clauses (one
+// duplicated), two open retracts and one open call — all interleavings, LIFO or not.
+func c09Exhaustive() []string {
+	setup := "az C1:p I1 ; az C1:p I2 ; az C1:p I1"
+	alphabet := []string{"or 0 C1:p V0", "or 1 C1:p I1", "oc 2 C1:p V1", "nx 0", "nx 1", "nx 2",
+		"aa C1:p I0", "az C1:p I1", "ab C2:/ Ap I1", "ra C1:p I1"}
+	var out []string
+	var rec func(prefix []string, depth int)
+	rec = func(prefix []string, depth int) {
+		if len(prefix) > 0 {
+			out = append(out, setup+" ; "+strings.Join(prefix, " ; "))
+		}
+		if depth == 0 {
+			return
+		}
+		for _, a := range alphabet {
+			rec(append(append([]string(nil), prefix...), a), depth-1)
+		}
+	}
+	rec(nil, 4)
+	return out
+}
+
 func genC09(r *rand.Rand, n int, tier string) []string {
 	out := make([]string, 0, n)
+	if tier == "thorough" {
+		out = append(out, c09Exhaustive()...)
+	}
 	for i := 0; i < n; i++ {
 		out = append(out, genC09Case(r, tier))
 	}
